@@ -17,9 +17,9 @@ META = {
         'exception and no finally returns; R3 in remove() all DELETEs of one matched lexicon share one `with conn` '
         'and the progress handler is reset in a finally; R4 scanning, pre-check and parsing complete before the '
         'transaction block is entered; R5 connect() only hands out the pooled connection. SQLite\'s own rollback '
-        'is trusted.'),
+        'is trusted. R6 the add/remove route keeps no state outside the database (nothing a rollback cannot undo).'),
     'decides': ['one transaction per resource', 'no commit point inside', 'failures propagate', 'remove is one '
-                'transaction per lexicon', 'parse before write', 'pooled connection'],
+                'transaction per lexicon', 'parse before write', 'pooled connection', 'no state outside the transaction'],
     'not_decided': ['correctness of SQLite rollback', 'crash (power loss) durability: PRAGMA synchronous=OFF is outside the property'],
     'assumptions': ['user-supplied progress handlers may raise but do not touch the connection',
                     'python sqlite3 legacy transaction control: implicit BEGIN before DML, commit at `with` exit'],
@@ -382,10 +382,21 @@ def r5_pooled_connection(ctx, res):
                         res.find(k2, func.module.loc(n), f'{func.qualname} writes the connection pool')
 
 
+def r6_no_state_outside_transaction(ctx, res):
+    """a rolled-back add()/remove() leaves nothing behind: the add/remove route keeps no state outside the database (no
+    module-level memo of what was inserted, no memoised helper) - SQLite rolls the rows back, not Python objects, and a later
+    add in the same process would trust the stale memo (analysis shared with C16-R2, restricted to the writing modules)."""
+    from .c16 import hidden_state_subset
+    n = hidden_state_subset(ctx, res, ('_add', '_db'), 'no-state-outside-transaction')
+    if n < 40:
+        raise AnalysisError(f'only {n} functions of wn/_add.py and wn/_db.py examined for state outside the database')
+
+
 RULES = [
     ('C06-R1', r1_one_transaction, 25),
     ('C06-R2', r2_failures_propagate, 1),
     ('C06-R3', r3_remove, 2),
     ('C06-R4', r4_parse_before_write, 5),
     ('C06-R5', r5_pooled_connection, 2),
+    ('C06-R6', r6_no_state_outside_transaction, 40),
 ]
